@@ -298,6 +298,13 @@ pub fn search_event(ctx: &mut Ctx, rtxn: &RoTxn, db: RawDb, idx: u16, metric: Me
             Err(e) => json!({"len": len as i64, "res": e}),
             Ok(_) => json!({"len": len as i64, "res": {"c":"Ok"}}),
         });
+        // the same call with an empty candidate filter: the length is checked before anything else
+        let empty = RoaringBitmap::new();
+        let r = run_query(rtxn, db, idx, metric, None, &vec![0.5; len], &QOpts { count: 3, search_k: Some(7), over: None }, Some(&empty));
+        baddim.push(match r {
+            Err(e) => json!({"len": len as i64, "res": e}),
+            Ok(_) => json!({"len": len as i64, "res": {"c":"Ok"}}),
+        });
     }
 
     // C04: self-lookup with the smallest budget
